@@ -230,8 +230,11 @@ func (c *Client) handlePacket(pktx pkts.Packet) error {
 		transactionx, _ := c.transactions.Get(pkt.MessageID())
 		transaction, ok := transactionx.(*brokerPublishQOS2Transaction)
 		if !ok {
-			c.log.Error("Unexpected transaction type %T for packet: %v", transactionx, pkt)
-			return nil
+			// The transaction has finished already => our PUBCOMP got lost
+			// and the gateway resends PUBREL. We must answer it again.
+			pubcomp := pkts1.NewPubcomp()
+			pubcomp.CopyMessageID(pkt)
+			return c.send(pubcomp)
 		}
 		transaction.Pubrel(pkt)
 		return nil
